@@ -442,7 +442,15 @@ var wtClaimed = map[string]bool{"omit": true, "rename": true, "compose": true, "
 	"struct_fields_as_arguments": true, "struct_fields_as_options": true, "array_to_append": true, "map_to_index": true,
 	"disjunction_as_options": true, "add_comments": true, "dismiss": true}
 
+// c17Hazard: sequences outside the domain on which the Lean model claims to be faithful
+// (ComposeBuilders ranges over a Go map of panel types; the builder it creates shares the backing
+// arrays of the source builder's Constructor.Assignments / Properties, so later appends may collide).
+var c17Hazard string
+
 func c17OracleRun(cs c17Case, decoded []cogyaml.Veneers, wantStatus string, wantVir string) (verdict string, stats string) {
+	c17Hazard = ""
+	composed := false
+	sharing := []string{}
 	bs, pm := runFromAST(cs.schemas)
 	if pm != "" {
 		return "ok", ""
@@ -482,6 +490,39 @@ func c17OracleRun(cs c17Case, decoded []cogyaml.Veneers, wantStatus string, want
 						everSelected[before[i].key] = true
 					}
 				}
+			}
+		}
+		if st.isBuilder && nSel > 0 {
+			switch st.kind {
+			case "compose":
+				ids := map[string]bool{}
+				for i, b := range bs {
+					if selB[i] {
+						for _, sch := range cs.schemas {
+							if sch.Package == b.For.SelfRef.ReferredPkg {
+								ids[sch.Metadata.Identifier] = true
+								break
+							}
+						}
+					}
+				}
+				if len(ids) > 1 {
+					c17Hazard = "compose-map-order"
+				}
+				if composed {
+					c17Hazard = "compose-append-aliasing"
+				}
+				composed = true
+			case "initialize", "promote", "merge_into", "properties":
+				if composed {
+					c17Hazard = "compose-append-aliasing"
+				}
+			}
+		}
+		if nSel > 0 {
+			switch st.kind {
+			case "promote", "merge_into", "compose", "add_option", "add_assignment":
+				sharing = append(sharing, st.kind)
 			}
 		}
 		var out []ast.Builder
@@ -541,6 +582,9 @@ func c17OracleRun(cs c17Case, decoded []cogyaml.Veneers, wantStatus string, want
 	}
 	stats = strings.Join(statParts, ",")
 	if fail != "" {
+		if len(sharing) > 0 {
+			fail += " [pointers-shared-by=" + strings.Join(sharing, "+") + "]"
+		}
 		return fail, stats
 	}
 	// the stepwise run must end where the real rewriter ended
